@@ -775,4 +775,109 @@ theorem edit_resyncOK {σ : Type} (sp : Splitter σ) (hr : InRange sp) (h3 : Res
     · rfl
   · rfl
 
+
+/-! ### several workers at once: a worker's result does not depend on the other workers -/
+
+def iter {α : Type} (f : α → α) : Nat → α → α
+  | 0, a => a
+  | n + 1, a => iter f n (f a)
+
+theorem getElem?_modify_self {α : Type} (l : List α) (i : Nat) (f : α → α) : (l.modify i f)[i]? = l[i]?.map f := by
+  rw [List.getElem?_modify]; simp
+
+theorem getElem?_modify_other {α : Type} (l : List α) (i j : Nat) (f : α → α) (h : i ≠ j) : (l.modify i f)[j]? = l[j]? := by
+  rw [List.getElem?_modify]; simp [h]
+
+/-- projection: whatever the schedule, worker `w` ends where it would end running alone for as many
+    turns as the schedule gives it -/
+theorem runPool_proj {σ : Type} (sp : Splitter σ) (bufSize : Nat) (sched : List Nat) (ws : List (WState σ)) (w : Nat) :
+    (runPool sp bufSize sched ws)[w]? = ws[w]?.map (iter (wstep sp bufSize) (sched.count w)) := by
+  unfold runPool
+  induction sched generalizing ws with
+  | nil => simp [iter]
+  | cons i rest ih =>
+    simp only [List.foldl_cons]
+    rw [ih]
+    by_cases h : i = w
+    · subst h
+      rw [getElem?_modify_self]
+      simp only [List.count_cons_self, Option.map_map]
+      congr 1
+    · rw [getElem?_modify_other _ _ _ _ h]
+      have : (i == w) = false := by simpa using h
+      simp [List.count_cons, this]
+
+/-- the chunk loop is the iteration of `wstep` -/
+theorem chunkLoop_iter {σ : Type} (sp : Splitter σ) (bufSize : Nat) (fuel : Nat) (cs : CState) (rd : Reader) (st : σ) (acc : List Bytes) :
+    (chunkLoop sp bufSize fuel cs rd st acc).1 =
+      ((iter (wstep sp bufSize) fuel { cs := cs, rd := rd, st := st, acc := acc, out := none }).out).getD .fuel := by
+  induction fuel generalizing cs rd st acc with
+  | zero => simp [chunkLoop, iter]
+  | succ fuel ih =>
+    have hdone : ∀ (n : Nat) (w : WState σ) (o : Out), w.out = some o → (iter (wstep sp bufSize) n w).out = some o := by
+      intro n
+      induction n with
+      | zero => intro w o h; exact h
+      | succ n ihn => intro w o h; simp only [iter]; apply ihn; simp [wstep, h]
+    simp only [chunkLoop, iter]
+    have e : wstep sp bufSize { cs := cs, rd := rd, st := st, acc := acc, out := none } =
+        (match readNextChunk sp bufSize cs rd st [] with
+          | (.chunk d, cs', rd', st') => { cs := cs', rd := rd', st := st', acc := acc ++ [d], out := none }
+          | (.eof, cs', rd', st') => { cs := cs', rd := rd', st := st', acc := acc, out := some (.ok acc) }
+          | (.error, cs', rd', st') => { cs := cs', rd := rd', st := st', acc := acc, out := some .error }
+          | (.badSplit k a, cs', rd', st') => { cs := cs', rd := rd', st := st', acc := acc, out := some (.badSplit k a) }
+          | (.spin, cs', rd', st') => { cs := cs', rd := rd', st := st', acc := acc, out := some .spin }) := rfl
+    rw [e]
+    generalize readNextChunk sp bufSize cs rd st [] = res
+    obtain ⟨r, cs', rd', st'⟩ := res
+    cases r with
+    | chunk d => simp only; exact ih cs' rd' st' (acc ++ [d])
+    | eof => simp only; rw [hdone _ _ (.ok acc) rfl]; rfl
+    | error => simp only; rw [hdone _ _ .error rfl]; rfl
+    | badSplit k a => simp only; rw [hdone _ _ (.badSplit k a) rfl]; rfl
+    | spin => simp only; rw [hdone _ _ .spin rfl]; rfl
+
+/-- once a worker is finished further turns change nothing -/
+theorem iter_done {σ : Type} (sp : Splitter σ) (bufSize : Nat) (n : Nat) (w : WState σ) (o : Out) (h : w.out = some o) :
+    (iter (wstep sp bufSize) n w).out = some o := by
+  induction n generalizing w with
+  | zero => exact h
+  | succ n ih => simp only [iter]; apply ih; simp [wstep, h]
+
+theorem iter_add {α : Type} (f : α → α) (m n : Nat) (a : α) : iter f (m + n) a = iter f n (iter f m a) := by
+  induction m generalizing a with
+  | zero => simp [iter]
+  | succ m ih => rw [Nat.succ_add]; simp only [iter]; exact ih (f a)
+
+/-- **Boundaries do not depend on what other workers do.** In a pool of file workers with any number
+    of workers in any states, for EVERY schedule that gives worker `w` enough turns to finish its
+    file, the outcome of `w` is the outcome of `saveFile` on that file alone — whatever the other
+    workers were handed and however their turns are interleaved with those of `w`. -/
+theorem pool_worker_indep {σ : Type} (sp : Splitter σ) (bufSize : Nat) (ws : List (WState σ)) (w : Nat)
+    (cs : CState) (st : σ) (file : Reader) (hw : ws[w]? = some (wstart sp cs st file))
+    (sched : List Nat) (hturns : file.data.length + 2 ≤ sched.count w) :
+    ((runPool sp bufSize sched ws)[w]?).bind (·.out) = some (saveFile sp bufSize cs st file).1 := by
+  rw [runPool_proj, hw]
+  simp only [Option.map_some, Option.bind_some]
+  obtain ⟨extra, he⟩ : ∃ extra, sched.count w = (file.data.length + 2) + extra := ⟨_, (Nat.add_sub_cancel' hturns).symm⟩
+  rw [he, iter_add]
+  have hloop := chunkLoop_iter sp bufSize (file.data.length + 2) cs.reset file sp.init []
+  have hne := saveFile_ne_fuel sp bufSize cs st file
+  unfold saveFile at hne ⊢
+  unfold wstart
+  cases ho : (iter (wstep sp bufSize) (file.data.length + 2) { cs := cs.reset, rd := file, st := sp.init, acc := [], out := none }).out with
+  | none => rw [ho] at hloop; simp at hloop; exact absurd hloop hne
+  | some o =>
+    rw [ho] at hloop
+    simp at hloop
+    rw [iter_done sp bufSize extra _ o ho, hloop]
+
+/-- … in particular it is the chunking of a fresh single worker (`chunks`) for a readable file -/
+theorem pool_worker_chunks {σ : Type} (sp : Splitter σ) (bufSize : Nat) (ws : List (WState σ)) (w : Nat)
+    (cs : CState) (st : σ) (file : Bytes) (hw : ws[w]? = some (wstart sp cs st { data := file, failAtEnd := false }))
+    (sched : List Nat) (hturns : file.length + 2 ≤ sched.count w) :
+    ((runPool sp bufSize sched ws)[w]?).bind (·.out) = some (chunks sp bufSize file) := by
+  rw [pool_worker_indep sp bufSize ws w cs st _ hw sched hturns]
+  rfl
+
 end Restic.Props.C17
